@@ -146,6 +146,16 @@ def evaluate_values(case):
                     fails.append(f"{X}_to_{Y}: value at x=0 is {out[nonpos][0]!r}, expected 0")
                 if Y == "G" and not np.all(out[nonpos] == 0.0):
                     fails.append(f"{X}_to_{Y}: value at x=0 is {out[nonpos][0]!r}, expected 0")
+            # one abscissa for many values (a Python number, not an array): same as the array filled with that number
+            if pos.any() and len(y) >= 2 and not case.get("int_inputs"):
+                x1 = float(x[pos][0])
+                try:
+                    o1, _ = conv(X, Y, x1, y, None, kw)
+                    oa, _ = conv(X, Y, np.full_like(y, x1), y, None, kw)
+                    if np.asarray(o1).shape != np.asarray(oa).shape or not np.array_equal(np.asarray(o1, dtype=float), np.asarray(oa, dtype=float), equal_nan=True):
+                        fails.append(f"{X}_to_{Y}: a scalar abscissa {x1!r} gives different values than the array filled with it")
+                except Exception as ex:  # noqa: BLE001
+                    fails.append(f"{X}_to_{Y}: a scalar abscissa raises {type(ex).__name__}")
             # there and back
             back, _ = conv(Y, X, x, out, None, kw)
             sc = max(1.0, float(np.abs(y).max()))
